@@ -189,6 +189,106 @@ def cells():
     return cs
 
 
+# ---------------------------------------------------------------- generated type compositions
+def gen_types(count, seed=0, max_bits=10, depth=3):
+    """-> (setup text with the generated Record classes, [(type expression, bits, [(path, lsb, Ty)], value builder or None)])
+    value builder: (inputs [(name, Ty)], expression with {name} holes) building a value of the type from leaf values
+    (records / primitives / enums only), used for the value -> bits direction."""
+    import random
+    rng = random.Random(seed)
+    classes = []
+    out = []
+    uid = [0]
+
+    def prim(budget):
+        k = rng.choice(["Bit", "BV", "U", "S"])
+        if k == "Bit" or budget < 2:
+            return ("Bit", 1, [("", 0, BIT)], True)
+        w = rng.randint(1 if k != "S" else 2, min(budget, 4))
+        return ({"BV": f"BitVector[{w}]", "U": f"Unsigned[{w}]", "S": f"Signed[{w}]"}[k], w, [("", 0, {"BV": BV, "U": U, "S": S}[k](w))], True)
+
+    def gen(d, budget, in_record=False):
+        choices = ["prim", "prim"]
+        if in_record:
+            choices.append("bool")
+        if d > 0 and budget >= 2:
+            choices += ["rec", "rec", "arr", "enum", "fix"]
+        k = rng.choice(choices)
+        if k == "bool":
+            return ("bool", 1, [("", 0, Ty("bool"))], False)
+        if k == "enum":
+            if budget >= 3 and rng.random() < 0.5:
+                return ("C17F", 3, [(".raw", 0, BV(3))], True)
+            return ("C17E", 2, [(".raw", 0, U(2))], True)
+        if k == "fix" and budget >= 3:
+            l, r = rng.choice([(1, -1), (0, -2), (2, 0), (1, 0), (-1, -3)])
+            if rng.random() < 0.5:
+                return (f"std.SFixed[{l}:{r}]", l - r + 1, [("._val", 0, S(l - r + 1))], True)
+            if l - r + 1 <= budget and l >= 0:
+                return (f"std.UFixed[{l}:{r}]", l - r + 1, [("._val", 0, U(l - r + 1))], True)
+        if k == "arr":
+            n = rng.randint(2, 3)
+            e = gen(d - 1, max(1, budget // n))
+            if e[0] == "bool" or e[1] * n > budget:
+                return prim(budget)
+            # operator [] is documented for trivially serialisable element types only, get_elem for the others
+            fields = [((f"[{i}]" if e[3] else f".get_elem({i})" if e[0].startswith("std.Array") else f".get_elem({i}, std.Value)") + p, i * e[1] + lsb, ft) for i in range(n) for p, lsb, ft in e[2]]
+            return (f"std.Array[{e[0]}, {n}]", e[1] * n, fields, False)
+        if k == "rec":
+            nf = rng.randint(1, 3)
+            fs = []
+            left = budget
+            for i in range(nf):
+                if left < 1:
+                    break
+                f = gen(d - 1, max(1, left - (nf - i - 1)), in_record=True)
+                if f[1] > left:
+                    f = ("Bit", 1, [("", 0, BIT)], True)
+                fs.append(f)
+                left -= f[1]
+            uid[0] += 1
+            name = f"C17G{seed}_{uid[0]}"
+            base = ""
+            # sometimes derive from an earlier generated record (inheritance: base fields first)
+            classes.append(f"class {name}(std.Record):\n" + "".join(f"    f{i}: {f[0]}\n" for i, f in enumerate(fs)))
+            fields, off = [], 0
+            for i, f in enumerate(fs):
+                fields += [(f".f{i}{p}", off + lsb, ft) for p, lsb, ft in f[2]]
+                off += f[1]
+            return (name, off, fields, all(f[3] for f in fs))
+        return prim(budget)
+
+    seen = set()
+    tries = 0
+    while len(out) < count and tries < count * 30:
+        tries += 1
+        uid_before = len(classes)
+        t = gen(depth, rng.randint(3, max_bits))
+        if t[0] in seen or t[0] in ("Bit",) or t[1] > max_bits or t[0].startswith(("BitVector", "Unsigned", "Signed")):
+            del classes[uid_before:]
+            continue
+        seen.add(t[0])
+        out.append(t[:3])
+    return "\n\n".join(classes) + "\n", out
+
+
+def generated_cells(count, seed=0, max_bits=10):
+    extra, types = gen_types(count, seed, max_bits)
+    setup = SETUP + "\n\n" + extra
+    cs = []
+    for tx, n, fields in types:
+        cs.append(Cell(f"gen|count_bits|{tx}", [], U(6), f"{{o}} <<= std.count_bits({tx})", lambda P, n=n: P.const(n), setup=setup))
+        cs.append(Cell(f"gen|roundtrip-bits|{tx}", [("a", BV(n))], BV(n), f"{{o}} <<= std.to_bits(std.from_bits[{tx}]({{a}}))", lambda P, a: a, setup=setup))
+        for path, lsb, ft in fields:
+            out_t = BIT if ft.kind == "bool" else ft
+            cs.append(Cell(f"gen|layout|{tx}|{path or 'self'}", [("a", BV(n))], out_t, f"{{o}} <<= std.from_bits[{tx}]({{a}}){path}",
+                           lambda P, a, lsb=lsb, ft=ft: field(P, a, lsb, w_of(ft), ft.kind == "S"), setup=setup))
+        # serialise through a Signal of the type (qualified aggregate) and through Serialized[T]
+        cs.append(Cell(f"gen|serialized|{tx}", [("a", BV(n))], BV(n), f"{{o}} <<= std.Serialized[{tx}].from_raw({{a}}).bits()", lambda P, a: a, setup=setup))
+        cs.append(Cell(f"gen|serialized-value|{tx}", [("a", BV(n))], BV(n), f"{{o}} <<= std.to_bits(std.Serialized[{tx}].from_raw({{a}}).value())", lambda P, a: a, setup=setup))
+    return cs, types
+
+
 def write_cells():
     """BitField writes (clocked: a local signal is wrapped, one field written, whole vector observed)"""
     cs = []
@@ -244,7 +344,21 @@ def run(tier: str) -> int:
     wd = Workdir()
     counts = {}
     try:
-        jobs = [("concurrent", cells()), ("clocked", write_cells()), ("clocked2", write2_cells())]
+        import random
+        from ..cells import constify
+        base = cells()
+        gen, gtypes = [], []
+        for sd in range(1 if tier == "quick" else 6):
+            g, t = generated_cells(40 if tier == "quick" else 60, seed=sd, max_bits=10 if tier == "quick" else 12)
+            gen += g
+            gtypes += t
+        # compile-time twins: the same cells with literal inputs (the compiler folds from_bits / to_bits / field access itself)
+        rng = random.Random(17)
+        twins = []
+        for c in base + gen:
+            if c.key.startswith(("roundtrip-bits", "layout", "gen|roundtrip-bits", "gen|layout", "to_bits", "bitfield-read")):
+                twins += constify(c, 16 if tier == "quick" else 64, rng)[: 2 if tier == "quick" else 8]
+        jobs = [("concurrent", base), ("concurrent", gen), ("concurrent", twins), ("clocked", write_cells()), ("clocked2", write2_cells())]
         total = 0
         for ctx, cs in jobs:
             total += len(cs)
@@ -267,9 +381,10 @@ def run(tier: str) -> int:
         rep.stats.units |= {"cohdl.std._core_utility.count_bits/to_bits/_FromBits", "cohdl.std._record.Record._to_bits_/_from_bits_", "cohdl.std.utility.Array / Serialized",
                             "cohdl.std.enum.Enum/FlagEnum", "cohdl.std._fixed._from_bits_/_to_bits_", "cohdl.std.bitfield.BitField/Field"}
         rep.assumptions += ["type bank: primitives, records (nested / inherited / templated / with bool and enum fields / with array field), std.Array incl. nested and of records, Enum, FlagEnum, SFixed/UFixed, Serialized[T], BitField incl. nested; total width <= 8 bits",
-                            "compile-time (Python constant) side of the same functions is not separately decided here"]
+                            "generated type bank (gen_types): records of 1-3 fields, std.Array of 2-3 elements, enums, fixed point, bool fields, nesting depth <= 3, total width <= 10 bits (12 thorough); element access `[i]` for trivially serialisable elements, get_elem otherwise (documented restriction)",
+                            "compile-time side: twins of the round-trip / layout cells with literal bit patterns (2 per cell quick, 8 thorough; corners first) -- these are concrete evaluations of the folding path, not a solver claim over all patterns"]
         return rep.finish({
-            "programs": rep.stats.programs, "cells": total, "cell_results": counts,
+            "programs": rep.stats.programs, "cells": total, "generated_types": len(gtypes), "compile_time_twins": len(twins), "cell_results": counts,
             "disagreements_checked": len(rep.violations) + len(rep.known_hits),
             "distinct_nontrivial": len(rep.stats.nontrivial), "evaluations": total,
             "rule": "one cell = type composition x obligation (width, round trip, layout of one field, field write)",
